@@ -36,7 +36,8 @@ type Report struct {
 	OracleEvals  int            `json:"oracle_evaluations"`
 	OracleFails  []Failure      `json:"oracle_failures"`
 	CaseInputs   []any          `json:"case_inputs"` // index-aligned with the Coq cases
-	CasesFile    string         `json:"cases_file"`
+	CasesFiles   []string       `json:"cases_files"`
+	ShardSize    int            `json:"shard_size"`
 	Notes        []string       `json:"notes,omitempty"`
 
 	seen map[string]bool
@@ -90,19 +91,38 @@ type CasesFile struct {
 
 func (c *CasesFile) Add(s string) { c.Items = append(c.Items, s) }
 
-func (c *CasesFile) Write(path string) {
+// Write writes the cases as shards of at most shardSize cases: <base>_<k>.v. It returns
+// the shard paths; case i of shard k is global case k*shardSize+i.
+const shardSize = 120
+
+func (c *CasesFile) Write(base string) []string {
+	var paths []string
+	n := len(c.Items)
+	for k := 0; k == 0 || k*shardSize < n; k++ {
+		lo, hi := k*shardSize, (k+1)*shardSize
+		if hi > n {
+			hi = n
+		}
+		path := fmt.Sprintf("%s_%d.v", base, k)
+		c.writeShard(path, c.Items[lo:hi])
+		paths = append(paths, path)
+	}
+	return paths
+}
+
+func (c *CasesFile) writeShard(path string, items []string) {
 	var b strings.Builder
 	fmt.Fprintf(&b, "(* written by /verif/harness/cmd/drive; not committed *)\nFrom Verif Require Import %s.\nOpen Scope string_scope.\nOpen Scope Z_scope.\nOpen Scope list_scope.\n\n", c.Imports)
-	const chunk = 40
+	const chunk = 30
 	var names []string
-	for i := 0; i < len(c.Items); i += chunk {
+	for i := 0; i < len(items); i += chunk {
 		j := i + chunk
-		if j > len(c.Items) {
-			j = len(c.Items)
+		if j > len(items) {
+			j = len(items)
 		}
 		name := fmt.Sprintf("chunk%d", i/chunk)
 		names = append(names, name)
-		fmt.Fprintf(&b, "Definition %s : list (%s) := [\n  %s\n].\n\n", name, c.Type, strings.Join(c.Items[i:j], ";\n  "))
+		fmt.Fprintf(&b, "Definition %s : list (%s) := [\n  %s\n].\n\n", name, c.Type, strings.Join(items[i:j], ";\n  "))
 	}
 	if len(names) == 0 {
 		fmt.Fprintf(&b, "Definition cases : list (%s) := [].\n", c.Type)
